@@ -1550,7 +1550,8 @@ namespace bluetoe {
     {
         const std::size_t last_index = last_handle_index( ending_handle );
 
-        for ( std::size_t index = handle_mapping::first_index_by_handle( starting_handle ); index <= last_index; ++index )
+        for ( std::size_t index = handle_mapping::first_index_by_handle( starting_handle );
+            index <= last_index && handle_mapping::handle_by_index( index ) <= ending_handle; ++index )
         {
             const details::attribute attr = attribute_at( index );
 
